@@ -8,6 +8,7 @@ Import ListNotations.
 (* the order of RemoveBlobs and the end-of-file check of walkPack, as the source regenerated today has them *)
 Definition index_first : bool := dp_remove_commits_index_first.
 Definition eof_check : bool := dp_walk_checks_file_size.
+Definition delete_header_first : bool := dp_delete_header_before_punch && dp_delete_header_before_zero.
 
 Fixpoint calls_eqb (a b : list call) : bool :=
   match a, b with
